@@ -623,6 +623,51 @@ theorem readInt_fmtInt (i : Int) : readInt (fmtInt i) = some i := by
         exact absurd heq.1 hne
       · rw [hr]; simp only [hi]
 
+/-! ### the JSON text of digit strings: nothing to escape -/
+
+def plainByte (b : UInt8) : Bool := (48 ≤ b && b ≤ 57) || b = 45 || b = 46
+
+theorem jsonEscAscii_plain_fin : ∀ n : Fin 256, plainByte (UInt8.ofNat n.val) = true →
+    UInt8.ofNat n.val < 0x80 ∧ jsonEscAscii (UInt8.ofNat n.val) = [UInt8.ofNat n.val] := by
+  decide +kernel
+
+theorem jsonEscAscii_plain (b : UInt8) (h : plainByte b = true) : b < 0x80 ∧ jsonEscAscii b = [b] := by
+  have hb : UInt8.ofNat b.toNat = b := by simp
+  have := jsonEscAscii_plain_fin ⟨b.toNat, b.toNat_lt⟩
+  simp only [hb] at this
+  exact this h
+
+theorem jsonEscape_plain (bs : Bytes) (h : bs.all plainByte = true) : jsonEscape bs = bs := by
+  simp only [jsonEscape]
+  induction bs with
+  | nil => simp [jsonEscapeAux]
+  | cons b r ih =>
+    simp only [List.all_cons, Bool.and_eq_true] at h
+    obtain ⟨hlt, h2⟩ := jsonEscAscii_plain b h.1
+    simp only [jsonEscapeAux, hlt, if_true, h2, ih h.2, List.cons_append, List.nil_append]
+
+theorem digit_plain (c : Char) (h : c.isDigit = true) : plainByte (UInt8.ofNat c.toNat) = true := by
+  simp only [Char.isDigit, Bool.and_eq_true, decide_eq_true_eq] at h
+  obtain ⟨h1, h2⟩ := h
+  have h1' : '0'.val ≤ c.val := h1
+  rw [UInt32.le_iff_toNat_le] at h1' h2
+  have h3 : 48 ≤ c.toNat := h1'
+  have h4 : c.toNat ≤ 57 := h2
+  have : ∀ n : Fin 58, 48 ≤ n.val → plainByte (UInt8.ofNat n.val) = true := by decide
+  exact this ⟨c.toNat, by omega⟩ h3
+
+theorem fmtInt_plain (i : Int) : (asciiBytes (fmtInt i)).all plainByte = true := by
+  have hd : ∀ n : Nat, (asciiBytes (fmtNat n)).all plainByte = true := by
+    intro n
+    simp only [asciiBytes, fmtNat, List.all_map, List.all_eq_true, Function.comp]
+    intro c hc
+    exact digit_plain c (Nat.isDigit_of_mem_toDigits (by decide) (by decide) hc)
+  simp only [fmtInt]
+  split
+  · have : asciiBytes ('-' :: fmtNat i.natAbs) = 45 :: asciiBytes (fmtNat i.natAbs) := rfl
+    rw [this, List.all_cons, hd]; decide
+  · exact hd _
+
 /-! ### strDecimal64 -/
 
 theorem pow10Wrap_eq (k : Nat) (h : k ≤ 17) : pow10Wrap k = ((10 ^ (k + 1) : Nat) : Int) := by
